@@ -22,6 +22,10 @@ def run(run):
                 out = list(getattr(algorithms, name)(pc.ctx))
                 got[name] = [(pc.omask(e.members()), pc.pmask(i.members())) for e, i in out]
             lattice_pairs = sorted((pc.omask(c.extent), pc.pmask(c.intent)) for c in pc.ctx.lattice)
+        for req, name in (('iterconcepts', 'iterconcepts'), ('getconcepts', 'get_concepts')):
+            mw = [tuple(map(int, p.split(':'))) for p in d.ask(req).split()]
+            if sorted(mw) != sorted(got[name]):
+                run.fail('multiset of pairs from %s (wrapper model)' % name, sorted(got[name]), sorted(mw), [pc.line, req], extra)
         m1 = [tuple(map(int, p.split(':'))) for p in d.ask('fcbo').split()]
         m2 = [tuple(map(int, p.split(':'))) for p in d.ask('fcbodual').split()]
         run.case(pc.line, gen.nontrivial(tab), {'context': pc.line, 'concepts': len(m1)})
